@@ -104,6 +104,10 @@ func c02Triggers(d *Defs, c c02Combo) []string {
 			}
 		case SAny:
 			set["any"] = true
+		case SRef:
+			if t := d.lookup(s.Ref); t != nil && t.Kind == SEnumS && len(t.EnumS) == 1 {
+				set["ref.to.single.enumS"] = true
+			}
 		case SDict:
 			if e := d.c02Resolve(s.Elem); e != nil && !c02IsScalarKind(e.Kind) {
 				hasDictOfNonScalar = true
@@ -158,11 +162,6 @@ func c02Triggers(d *Defs, c c02Combo) []string {
 			}
 			if !field.Required && field.Ty.Kind == SConst && field.Ty.Const.K == 'n' && c.Builders {
 				set["builders+optional.const.int"] = true
-			}
-			if field.Ty.Kind == SRef {
-				if t := d.lookup(field.Ty.Ref); t != nil && t.Kind == SEnumS && len(t.EnumS) == 1 {
-					set["ref.to.single.enumS"] = true
-				}
 			}
 		}
 	})
